@@ -97,3 +97,7 @@ package persistence
 //@ at call MakeCookieFromOptions assert[deletion-same-name-and-options] arg(MakeCookieFromOptions, 1) == t.options.Name
 //@     && arg(MakeCookieFromOptions, 2) == "" && arg(MakeCookieFromOptions, 3) == t.options && arg(MakeCookieFromOptions, 4) < 0
 //@ at call http.SetCookie assert[sets-the-deletion] arg(http.SetCookie, 1) == ret(MakeCookieFromOptions)
+
+//@ func NewManager
+//@ prop C13 C09
+//@ ensures[manager-wraps-the-given-store-and-options] result != nil && result.Store == store && result.Options == cookieOpts
